@@ -37,13 +37,17 @@ using std::string;
 ///    The name of the attribute.
 /// @param[in]  attr_value
 ///    The value of the attribute.
+/// @return
+///    The id of the new entry, unique within this container.
+/// @since  1.47.0, 30.09.2026  (returns the id of the entry)
 /// @since  1.15.0, 19.06.2016
-void LogAttributesContainer::addAttribute( const string& attr_name,
-   const string& attr_value)
+LogAttributesContainer::attr_id_t LogAttributesContainer::addAttribute(
+   const string& attr_name, const string& attr_value)
 {
 
-   mAttributes.push_back( attr_pair_t( attr_name, attr_value));
+   mAttributes.push_back( attr_entry_t( attr_name, attr_value, mNextId));
 
+   return mNextId++;
 } // LogAttributesContainer::addAttribute
 
 
@@ -139,6 +143,29 @@ void LogAttributesContainer::removeAttribute( const string& attr_name)
    } // end for
 
 } // LogAttributesContainer::removeAttribute
+
+
+
+/// Removes exactly the entry with the given id.<br>
+/// Does nothing if the entry does not exist anymore.
+///
+/// @param[in]  attr_id
+///    The id of the entry to erase, as returned by addAttribute().
+/// @since  1.47.0, 30.09.2026
+void LogAttributesContainer::removeAttributeEntry( attr_id_t attr_id)
+{
+
+   for (auto attr_iter = mAttributes.begin(); attr_iter != mAttributes.end();
+        ++attr_iter)
+   {
+      if (std::get< 2>( *attr_iter) == attr_id)
+      {
+         mAttributes.erase( attr_iter);
+         break;   // for
+      } // end if
+   } // end for
+
+} // LogAttributesContainer::removeAttributeEntry
 
 
 
